@@ -88,13 +88,88 @@ func (e *ev) idleEdges(fn *ssa.Function) map[edgeKey]bool {
 	return out
 }
 
-// quiescentFunc verifies that a bool function returns true only after len(queue)==0 then running==idle.
+// senderFailedFlags: int32 fields of the channel whose only writes are Store(f, non-zero constant) in the
+// sender's deferred recover closure ("the sender died: nothing more can be delivered").
+func (e *ev) senderFailedFlags() map[*types.Var]bool {
+	out := map[*types.Var]bool{}
+	bad := map[*types.Var]bool{}
+	for _, fn := range e.p.Funcs {
+		core.AllInstrs(fn, func(in ssa.Instruction) {
+			a := core.AsAtomic(in)
+			if a == nil || a.Field == nil || a.Field == e.r.Running || a.Field == e.r.Closed {
+				return
+			}
+			if a.Kind == "load" {
+				return
+			}
+			okStore := false
+			if a.Kind == "store" && len(a.Args) == 1 {
+				if k, isC := core.ConstInt(a.Args[0]); isC && k != 0 {
+					// inside a recovering deferred closure of the sender
+					if core.Outermost(fn) == e.r.Sender && fn != e.r.Sender {
+						for _, fr := range recoverFrames(e.r.Sender) {
+							if fr.Closure == fn {
+								okStore = true
+							}
+						}
+					}
+				}
+			}
+			if okStore {
+				out[a.Field] = true
+			} else {
+				bad[a.Field] = true
+			}
+		})
+	}
+	for f := range bad {
+		delete(out, f)
+	}
+	return out
+}
+
+// failedEdges: edges of fn asserting that a sender-failed flag is set.
+func (e *ev) failedEdges(fn *ssa.Function) map[edgeKey]bool {
+	out := map[edgeKey]bool{}
+	flags := e.senderFailedFlags()
+	if len(flags) == 0 {
+		return out
+	}
+	for _, ifi := range core.Ifs(fn) {
+		cd := core.CondOf(ifi)
+		if cd.Op != token.EQL && cd.Op != token.NEQ {
+			continue
+		}
+		for _, side := range [][2]ssa.Value{{cd.X, cd.Y}, {cd.Y, cd.X}} {
+			li, ok := side[0].(ssa.Instruction)
+			if !ok {
+				continue
+			}
+			a := core.AsAtomic(li)
+			if a == nil || a.Kind != "load" || !flags[a.Field] {
+				continue
+			}
+			if k, isC := core.ConstInt(side[1]); isC && k == 0 {
+				if cd.Op == token.NEQ {
+					out[edgeKey{ifi.Block(), cd.True}] = true
+				} else {
+					out[edgeKey{ifi.Block(), cd.False}] = true
+				}
+			}
+		}
+	}
+	return out
+}
+
+// quiescentFunc verifies that a bool function returns true only after len(queue)==0 then running==idle
+// (or after observing that the sender failed).
 func (e *ev) quiescentFunc(fn *ssa.Function) (bool, string) {
 	if fn == nil || fn.Blocks == nil || fn.Signature.Results().Len() != 1 || !isBool(fn.Signature.Results().At(0).Type()) {
 		return false, "not a bool function"
 	}
 	empties := e.queueEmptyEdges(fn)
 	idles := e.idleEdges(fn)
+	failed := e.failedEdges(fn)
 	okAll := true
 	why := ""
 	n := 0
@@ -130,12 +205,31 @@ func (e *ev) quiescentFunc(fn *ssa.Function) (bool, string) {
 				okAll, why = false, "the sender flag is read before (or without) observing the queue length"
 				return
 			}
+		} else if phi, ok := v.(*ssa.Phi); ok {
+			// short-circuit &&: every non-false edge must be the idle comparison, reached after the empty edge
+			for i, ed := range phi.Edges {
+				if k, ok := ed.(*ssa.Const); ok && !constBool(k) {
+					continue
+				}
+				isIdle, ok := e.runningIdleCmp(ed)
+				if !ok || !isIdle {
+					okAll, why = false, "a conjunct of the returned condition is not the idle test of the sender flag: "+ed.String()
+					return
+				}
+				pred := phi.Block().Preds[i]
+				fake := pred.Instrs[len(pred.Instrs)-1]
+				if reachWithout(fn, fake, empties, idles, failed, false) {
+					okAll, why = false, "can report quiescence without having observed the write queue empty first (the flag alone reads idle between the sender's release and its re-check: accepted packet lost on Close)"
+					return
+				}
+			}
+			return
 		} else if c, ok := v.(*ssa.Const); !(ok && constBool(c)) {
 			okAll, why = false, "return value shape not recognised: "+v.String()
 			return
 		}
 		// product search: entry -> ret must pass an empty edge and then (if needed) an idle edge
-		if reachWithout(fn, ret, empties, idles, needIdleEdge) {
+		if reachWithout(fn, ret, empties, idles, failed, needIdleEdge) {
 			okAll = false
 			if needIdleEdge {
 				why = "can return true without observing len(writeQueue)==0 and then running==idle, in that order"
@@ -164,7 +258,7 @@ func isBool(t types.Type) bool {
 
 // reachWithout: is `target` reachable from entry on a path that has NOT passed (an empty edge, then
 // when needIdle an idle edge)? state 0 = nothing, 1 = empty seen, 2 = empty then idle seen.
-func reachWithout(fn *ssa.Function, target ssa.Instruction, empties, idles map[edgeKey]bool, needIdle bool) bool {
+func reachWithout(fn *ssa.Function, target ssa.Instruction, empties, idles, failed map[edgeKey]bool, needIdle bool) bool {
 	type st struct {
 		b *ssa.BasicBlock
 		s int
@@ -185,7 +279,9 @@ func reachWithout(fn *ssa.Function, target ssa.Instruction, empties, idles map[e
 		for _, nb := range cur.b.Succs {
 			s := cur.s
 			k := edgeKey{cur.b, nb}
-			if s == 0 && empties[k] {
+			if failed[k] {
+				s = goal
+			} else if s == 0 && empties[k] {
 				s = 1
 			} else if s == 1 && needIdle && idles[k] {
 				s = 2
